@@ -232,6 +232,55 @@ def gridEqFlat (a b : Grid) : Bool :=
   else if !(arrEq intEq a.conn b.conn) then false
   else true
 
+/-! ### from the SOURCE description to the stored table (`_process_connectivity`)
+
+  `Grid.__eq__` compares stored tables; the property speaks about the grids' connectivity, i.e.
+  about what the user handed in.  The link is the reader: `from_topology` (and the UGRID reader
+  through the same `_replace_fill_values`) turns a source table written in a dialect
+  `(fill value, start index)` into the stored table: entries equal to the dialect's fill value
+  become `FILL`, every other entry is shifted by the start index.  For `==` to distinguish source
+  descriptions this map must be INJECTIVE on valid source tables (C01 proves the round trips
+  `UxVerif.C01.topology_roundtrip`, `ugrid_roundtrip` and `pad_inj`, from which injectivity
+  follows; the entry-level statement needed here is re-proved in Props/C20.lean:
+  `procTable_inj`, `source_change_detected`). -/
+
+/-- one entry: `fill = none` — no padding in use. -/
+def procEntry (fill : Option Int) (start : Int) (x : Int) : Int :=
+  match fill with
+  | none => x - start
+  | some f =>
+    let y := if f ≠ FILL ∧ x = f then FILL else x
+    if y ≠ FILL then y - start else FILL
+
+def procTable (fill : Option Int) (start : Int) (t : Table) : Table := t.map (·.map (procEntry fill start))
+
+/-- a source entry is the dialect's fill value, or a real index that is neither the fill value nor
+    (before / after the shift) the standard fill value. -/
+def validEntry (fill : Option Int) (start : Int) (x : Int) : Bool :=
+  match fill with
+  | none => true
+  | some f => x == f || (x != FILL && x - start != FILL)
+
+def validTable (fill : Option Int) (start : Int) (t : Table) : Bool := t.all (·.all (validEntry fill start))
+
+/-- a *tolerant* fill test (NOT what the code does; model of `np.isclose(x, fill)`): everything
+    within `tol` of the fill value is treated as padding.  `Props/C20.lean: tolerant_fill_not_injective`. -/
+def procEntryTol (tol : Int) (f : Int) (start : Int) (x : Int) : Int :=
+  let y := if f ≠ FILL ∧ (x - f).natAbs ≤ tol.toNat then FILL else x
+  if y ≠ FILL then y - start else FILL
+
+/-- failing clauses for a pair of SOURCE descriptions with the same coordinates and dialect:
+    the stored tables must be what the reader model gives (`reader_corresponds`), and `==` must be
+    True iff the source tables are the same (`eq_iff_same_source`), `!=` its negation. -/
+def sourceFailing (fill : Option Int) (start : Int) (tA tB sA sB : Table)
+    (e1 n1 e2 n2 : Bool) : List String :=
+  (if sA = procTable fill start tA ∧ sB = procTable fill start tB then [] else ["reader_corresponds"]) ++
+  (if (decide (sA = sB)) == (decide (tA = tB)) then [] else ["reader_injective_on_connectivity"]) ++
+  (if e1 == decide (tA = tB) ∧ e2 == decide (tA = tB) then [] else
+      [if e1 || e2 then "eq_implies_same_source" else "same_source_implies_eq"]) ++
+  (if n1 == !e1 ∧ n2 == !e2 then [] else ["ne_is_negation"]) ++
+  (if e1 == e2 then [] else ["eq_symm"])
+
 /-- right operand of `==`: a grid or anything else (the tag only names the kind of object). -/
 inductive Obj where
   | grid (g : Grid)
